@@ -575,6 +575,8 @@ func (s *HASyncer) performFullSync() error {
 			)
 		}
 	}
+	// The snapshot is the whole table: drop sessions the active no longer has
+	s.pruneStoreLocked()
 	s.receivedMu.Unlock()
 
 	s.mu.Lock()
@@ -590,6 +592,21 @@ func (s *HASyncer) performFullSync() error {
 	)
 
 	return nil
+}
+
+// pruneStoreLocked deletes every session from the store that is not in receivedSessions.
+// Must be called with receivedMu held, right after a full snapshot was applied.
+func (s *HASyncer) pruneStoreLocked() {
+	for _, old := range s.store.GetAllSessions() {
+		if _, ok := s.receivedSessions[old.SessionID]; !ok {
+			if err := s.store.DeleteSession(old.SessionID); err != nil {
+				s.logger.Warn("Failed to delete stale session",
+					zap.String("session_id", old.SessionID),
+					zap.Error(err),
+				)
+			}
+		}
+	}
 }
 
 // connectToStream connects to the SSE stream from the active node.
@@ -723,6 +740,7 @@ func (s *HASyncer) handleSSEData(data []byte) error {
 			s.receivedSessions[session.SessionID] = &session
 			s.store.PutSession(&session)
 		}
+		s.pruneStoreLocked()
 		s.receivedMu.Unlock()
 	}
 
